@@ -139,7 +139,10 @@ func (model Model) GetPolicy(sec string, ptype string) ([][]string, error) {
 	if err != nil {
 		return nil, err
 	}
-	return model[sec][ptype].Policy, nil
+	// a copy of the list (not of the rules): the removal and update functions edit the stored list in
+	// place, so a caller that hands a listing straight back to them (RemovePolicies(GetPolicy()))
+	// must not be holding the list they are editing
+	return append([][]string(nil), model[sec][ptype].Policy...), nil
 }
 
 // GetFilteredPolicy gets rules based on field filters from a policy.
